@@ -135,7 +135,11 @@ class C16(Prop):
         if r.random() < 0.2:
             extra = [r.choice(STMTS[:3] + STMTS[7:10]).format(p0="argument_parser", p1="argument_parser") for _ in range(r.randint(1, 3))]
             run.dist["family"]["argparse"] += 1
-            return {"family": "argparse", "extra": extra, "ret": "return argument_parser"}
+            # the final return: the bare parser, the documented pair, or a tuple of another shape (all carried verbatim)
+            ret = r.choice(["return argument_parser", "return argument_parser", "return argument_parser, total",
+                            "return argument_parser, len(values), 'done'", "return argument_parser.parse_known_args, total"])  # fmt: skip
+            run.dist["argparse_return"][ret] += 1
+            return {"family": "argparse", "extra": extra, "ret": ret}
         src, ps, method, shadow = gen_function_src(r)
         run.dist["family"]["function"] += 1
         run.dist["shadowing"][shadow] += 1
@@ -242,6 +246,9 @@ class C16(Prop):
 
     def oracle_argparse(self, c, run):
         ir_j = {"doc": "Summary of it.", "params": [("dataset_name", {"typ": "str", "doc": "the name.", "default": "mnist"})], "returns": None}
+        if "," in c["ret"]:
+            # a tuple is returned: the function documents `Tuple[ArgumentParser, T]` (what the parser reads the second type from)
+            ir_j["returns"] = {"typ": "int", "doc": "the total", "default": "```total```"}
         try:
             base = self.emit.argparse_function(G.to_py_ir(ir_j), function_name="set_cli_args")
             src = ast.unparse(ast.fix_missing_locations(ast.Module(body=[base], type_ignores=[])))
